@@ -41,7 +41,8 @@ def of_ps(ps):
     return ([(opid(o), str(i), list(c)) for o, i, c in zip(ps.c_opers, ps.c_oper_identifiers,
                                                            ps.c_coeffs)],
             [(opid(o), str(i), list(c)) for o, i, c in zip(ps.n_opers, ps.n_oper_identifiers,
-                                                           ps.n_coeffs)], list(ps.dt), b)
+                                                           ps.n_coeffs)],
+            [int(x) if float(x).is_integer() else float(x) for x in ps.dt], b)
 
 
 def mapping_s(d):
